@@ -577,7 +577,7 @@ def run(tier):
 
     names = seed_names()
     if tier == "quick" and not os.environ.get("VERIF_ALLSEEDS"):
-        names = [n for i, n in enumerate(names) if i % 2 == vseed % 2]
+        pass  # quick also covers every seed (detection must not depend on the rotation)
     jobs = [{"seeds": names[b : b + 3]} for b in range(0, len(names), 3)]
     with mp.get_context("fork").Pool(ncpu(), maxtasksperchild=4) as pool:
         outs2 = pool.map(_l2_work, jobs, chunksize=1)
